@@ -16,7 +16,7 @@ from ..world import CLUSTER_LPS, CONTEXT_FREE, LINEAR, TREE_LPS, Session, is_con
 ID = "C04"
 LEVEL = "exploration"
 USES_SERVERS = True       # helper interpreters are restarted for every execution made while minimising / replaying
-SHRINK_EXEC = 40
+SHRINK_EXEC = 16         # every execution made while minimising starts fresh helper interpreters (~3 s)
 QUICK_RUNS = 1600
 CHUNK = 10
 RULE = ("Each run: drawn policy combination (default-constructed and shared policy tuples included), seed, call history; "
@@ -57,6 +57,11 @@ def generate(rnd, tier, index=0):
         flags["default_lp"] = True
         cfg["lp"] = [cfg["lp"][0], {}]
     warm_scn = (not tree) and rnd.random() < 0.2
+    if warm_scn and rnd.random() < 0.6 and not isinstance(cfg["arms"][0], str):
+        k = len(cfg["arms"])
+        pool = list(gen.ARM_POOLS["str"])
+        rnd.shuffle(pool)
+        cfg["arms"], spare = pool[:k], pool[k:]         # set/dict iteration order of strings depends on the hash seed
     if warm_scn:
         # warm-start scenario: a warm-start capable policy with cold arms; the other bandits warm-start with the SAME arm
         # features and another quantile before A does (process-global caches keyed too coarsely show here)
@@ -93,6 +98,16 @@ def generate(rnd, tier, index=0):
         trained = arms[:max(1, len(arms) // 2)]
         w = gen.gen_warm(rnd, arms, dim=2)
         w["q"] = rnd.choice([0.0, 0.25, 0.5])
+        if len(trained) >= 2 and len(arms) > len(trained) and rnd.random() < 0.7:
+            # an exact tie: two trained arms with the same direction, a cold arm in that direction too (cosine distance 0
+            # to both) - which of the two it copies must not depend on anything but the arm order
+            f = dict((a, v) for a, v in w["features"])
+            v = [rnd.randint(1, 3), rnd.randint(1, 3)]
+            t1, t2 = rnd.sample(trained, 2)
+            cold = rnd.choice(arms[len(trained):])
+            f[t1], f[t2], f[cold] = list(v), [2 * x for x in v], [3 * x for x in v]
+            w["features"] = [[a, f[a]] for a in arms]
+            w["q"] = 1.0 if rnd.random() < 0.5 else w["q"]
         Q = gen.gen_Q(rnd, 2, d, "exact") if ctxl else None
         ops = [{"op": "fit", "rows": gen.gen_rows(rnd, trained, rnd.randint(4, 10), d, "exact", rk, ctxl)},
                w, {"op": "expect", "Q": Q}, {"op": "predict", "Q": Q}]
